@@ -70,7 +70,7 @@ def run(ctx, pairs):
     for i, p in enumerate(pairs):
         il, ml = impl_l[i], model_l[i]
         p['impl'], p['model'] = il, ml
-        if il != ml and not (ml == 'OOB' and il.startswith('CRASH')):
+        if il != ml and not (ml == 'OOB' and il.startswith('CRASH')) and not il.startswith('SKIPPED'):
             tie.append(p)
         c = cur2.get(i, cur1[i])
         p['current_out'] = c
